@@ -65,7 +65,11 @@ impl SubscriptionManager {
         // goes away while we wait for the topic must not leave it registered but unattached.
         let attach = tokio::spawn({
             let subscription = Arc::clone(&subscription);
-            async move { topic.attach_subscription(subscription).await }
+            async move {
+                let result = topic.attach_subscription(Arc::clone(&subscription)).await;
+                subscription.mark_attach_finished();
+                result
+            }
         });
         attach
             .await
